@@ -135,15 +135,34 @@ m('c10-serve-no-closeinput', 'C10', 'session.go', '''	defer func() {
 		s.closeInputStream()
 		e := s.Close()''', '''	defer func() {
 		e := s.Close()''')
-m('c10-senderror-drops-err', 'C10', 'session.go', '''	if s.state&OutputStreamClosed == OutputStreamClosed {
+m('c10-senderror-drops-err', 'C10', 'session.go', '''	if s.outputClosed() {
 		return err
 	}
 
-	se := stream.Error{}''', '''	if s.state&OutputStreamClosed == OutputStreamClosed {
+	se := stream.Error{}''', '''	if s.outputClosed() {
 		return nil
 	}
 
 	se := stream.Error{}''')
+m('c10-close-holds-state-lock', 'C10', 'session.go', '''	s.state |= OutputStreamClosed
+	s.stateMutex.Unlock()
+
+''', '''	s.state |= OutputStreamClosed
+	defer s.stateMutex.Unlock()
+
+''')
+m('c10-closesession-bit-after-unlock', 'C10', 'session.go', '''	s.state |= OutputStreamClosed
+	s.stateMutex.Unlock()
+
+''', '''	s.stateMutex.Unlock()
+	s.state |= OutputStreamClosed
+
+''')
+m('c10-senderror-no-closed-check', 'C10', 'session.go', '''	if s.outputClosed() {
+		return err
+	}
+
+	se := stream.Error{}''', '''	se := stream.Error{}''')
 m('c10-deadline-unsynchronised', 'C10', 'session.go', '''	s.stateMutex.Lock()
 	oldCancel := s.in.cancel
 	s.in.ctx, s.in.cancel = context.WithDeadline(context.Background(), t)
@@ -158,7 +177,23 @@ func (s *Session) SendRaw(b []byte) error {
 }
 
 // Close ends the output stream (by sending a closing </stream:stream> token).''')
-seeded('c10-seeded-1-bit-after-write', 'C10', 'C10-1')
+# seeded C10-1 ported to the repaired closeSession: the bit is set only after a successful write
+m('c10-seeded-1-bit-after-write', 'C10', 'session.go', '''	s.state |= OutputStreamClosed
+	s.stateMutex.Unlock()
+
+	// We wrote the opening stream instead of encoding it, so do the same with the
+	// closing to ensure that the encoder doesn't think the tokens are mismatched.
+	return intstream.Close(s.Conn(), &s.out.Info)''', '''	s.stateMutex.Unlock()
+
+	// We wrote the opening stream instead of encoding it, so do the same with the
+	// closing to ensure that the encoder doesn't think the tokens are mismatched.
+	err := intstream.Close(s.Conn(), &s.out.Info)
+	if err == nil {
+		s.stateMutex.Lock()
+		s.state |= OutputStreamClosed
+		s.stateMutex.Unlock()
+	}
+	return err''')
 seeded('c10-seeded-2-deadline-derived', 'C10', 'C10-2')
 seeded('c10-seeded-3-close-without-lock', 'C10', 'C10-3')
 m('c10-harmless-helper', 'C10', 'session.go', '''func (s *Session) outputClosed() bool {
@@ -180,7 +215,7 @@ m('c13-error-empty-text-kept', 'C13', 'stanza/error.go', '''		data := se.Text[la
 		if data == "" {
 			continue
 		}''', '''		data := se.Text[lang]''')
-m('c13-new-foreign-attrs', 'C13', 'stanza/presence.go', '''		if attr.Name.Space != "" && attr.Name.Space != start.Name.Space {
+m('c13-new-foreign-attrs', 'C13', 'stanza/presence.go', '''		if attr.Name.Space != "" {
 			continue
 		}
 ''', '''''')
